@@ -278,6 +278,10 @@ def check(ctx: Ctx) -> None:
     from .C03 import check_endmarker_requeue
     check_endmarker_requeue(ctx, "C04.k")
 
+    # the connection-loss sweep runs under the receive lock, like every other close: a setcallback in progress still gets its endmarker
+    from .C10 import check_closers_serialised
+    check_closers_serialised(ctx, "C04.l")
+
     with ctx.obligation("C04.h", "callbacks-contained") as ob:
         rc = receiver_context(repo)
         for fi, c, origin in callback_invocations(repo):
